@@ -56,7 +56,18 @@ impl ComptimeBytes for ComptimeResult {
             ComptimeResult::Float { num, bit_width } => {
                 Some(num.into_bytes(endianness, bit_width).into_boxed_slice())
             }
-            ComptimeResult::Data(bytes) => Some(bytes),
+            ComptimeResult::Data {
+                mut bytes,
+                type_ids,
+            } => {
+                // the ids in the bytes are the ones of the compilation that evaluated the block
+                for (offset, ty) in type_ids {
+                    let id = ty.to_type_id(meta_tys, ptr_ty).to_ne_bytes();
+                    bytes[offset..offset + id.len()].copy_from_slice(&id);
+                }
+
+                Some(bytes)
+            }
             ComptimeResult::Void => None,
         }
     }
@@ -161,6 +172,62 @@ fn zero_padding(ty: Intern<Ty>, bytes: &mut [u8]) {
         }
         bytes[payload_size..discrim_offset].fill(0);
         bytes[discrim_offset + 1..].fill(0);
+    }
+}
+
+/// Finds the type ids inside the bytes of a value of type `ty` (members of type `type`, however
+/// deep), and looks up which types the evaluating compilation meant by them.
+fn find_type_ids(
+    ty: Intern<Ty>,
+    bytes: &[u8],
+    base: usize,
+    id_to_ty: &FxHashMap<&u32, &Intern<Ty>>,
+    found: &mut Vec<(usize, Intern<Ty>)>,
+) {
+    let ty = ty.absolute_intern_ty(true);
+    let end = (ty.size() as usize).min(bytes.len());
+    let bytes = &bytes[..end];
+
+    if *ty == Ty::Type {
+        if let Ok(id) = <[u8; 4]>::try_from(bytes)
+            && let Some(meant) = id_to_ty.get(&u32::from_ne_bytes(id))
+        {
+            found.push((base, **meant));
+        }
+    } else if let Some(members) = ty.as_struct() {
+        let layout = ty.struct_layout().unwrap();
+        for (member, offset) in members.iter().zip(layout.offsets()) {
+            let offset = (*offset as usize).min(bytes.len());
+            find_type_ids(member.ty, &bytes[offset..], base + offset, id_to_ty, found);
+        }
+    } else if let Some((len, sub_ty)) = ty.as_array() {
+        let stride = sub_ty.stride() as usize;
+        if stride > 0 {
+            for idx in 0..len as usize {
+                let start = (idx * stride).min(bytes.len());
+                find_type_ids(sub_ty, &bytes[start..], base + start, id_to_ty, found);
+            }
+        }
+    } else if ty.is_tagged_union() {
+        let discrim_offset = ty.enum_layout().unwrap().discriminant_offset() as usize;
+        let Some(discrim) = bytes.get(discrim_offset).map(|d| *d as u64) else {
+            return;
+        };
+        let payload = match ty.as_ref() {
+            Ty::Enum { variants, .. } => variants
+                .iter()
+                .find(|v| ty.get_tagged_union_discrim(v) == Some(discrim))
+                .copied(),
+            Ty::Optional { sub_ty } => (discrim == 1).then_some(*sub_ty),
+            Ty::ErrorUnion {
+                error_ty,
+                payload_ty,
+            } => Some(if discrim == 1 { *payload_ty } else { *error_ty }),
+            _ => None,
+        };
+        if let Some(payload) = payload {
+            find_type_ids(payload, bytes, base, id_to_ty, found);
+        }
     }
 }
 
@@ -339,7 +406,10 @@ pub fn eval_comptime_blocks<'a>(
                             unsafe { mem::transmute::<*const u8, fn() -> u128>(code_ptr) };
                         let result = comptime();
 
-                        ComptimeResult::Data(Box::new(result.to_ne_bytes()))
+                        ComptimeResult::Data {
+                            bytes: Box::new(result.to_ne_bytes()),
+                            type_ids: Vec::new(),
+                        }
                     }
                     _ => unreachable!(),
                 };
@@ -365,7 +435,10 @@ pub fn eval_comptime_blocks<'a>(
                 };
                 zero_padding(return_ty, &mut bytes);
 
-                results.insert(ctc, ComptimeResult::Data(bytes));
+                let mut type_ids = Vec::new();
+                find_type_ids(return_ty, &bytes, 0, &meta_tys, &mut type_ids);
+
+                results.insert(ctc, ComptimeResult::Data { bytes, type_ids });
             }
             FinalTy::Void => {
                 let comptime = unsafe { mem::transmute::<*const u8, fn()>(code_ptr) };
